@@ -55,8 +55,7 @@ def isrcPattern (s : List Nat) : Bool :=
 
 /-- `ISRC::from_str`: strip dashes, then match; the stored text is the stripped one -/
 def isrcFromStr (s : List Nat) : Option (List Nat) :=
-  let t := s.filter (· != 45)
-  if isrcPattern t then some t else none
+  if isrcPattern (s.filter (· != 45)) then some (s.filter (· != 45)) else none
 
 def isrcOk (s : List Nat) : Bool := s.isEmpty || isrcPattern s
 
